@@ -51,12 +51,6 @@ example : projEq (Mat.ofFn fun i j => ((i.val + 2 * j.val + 1 : Nat) : ℚ) : Ma
     = Mat.ofFn fun i j => if i.val = 0 then 0 else ((i.val + 2 * j.val + 1 : Nat) : ℚ) := by
   apply Mat.ext'; intro i j; simp [projEq_get]
 
-theorem rabs_eq_abs (x : ℚ) : rabs x = |x| := by
-  unfold rabs
-  split_ifs with h
-  · rw [abs_of_neg h]
-  · rw [abs_of_nonneg (not_lt.mp h)]
-
 /-- C18 `is_tp` verdict: the model's `is_tp` is `true` exactly when every entry of the first row is within
 `atol` of zero (`np.allclose(hs[0], 0, atol, rtol=0)`); with `atol = 0` this is "first row vanishes". -/
 theorem isTp_iff {n : Nat} (hs : Mat ℚ n n) (atol : ℚ) :
@@ -349,9 +343,6 @@ uses (normalised Pauli, Gell-Mann, their tensor products and random rotations of
 section examples
 
 example : (ii : ℂ) * ii = -1 := Complex.I_mul_I
-
-/-- the jump operator `c = (2)` of the one-dimensional system -/
-def c2 : Mat ℂ 1 1 := Mat.ofFn fun _ _ => 2
 
 /-- D13 (negation witness for "built from jump operators ⇒ acts as GKSL prescribes"): as coded, the
 anti-commutator part is built from `c` instead of `c†c`; for `c = (2)` the coded generator is `ρ ↦ 2ρ`
